@@ -52,6 +52,7 @@ func scenarios(thorough bool) []Scenario {
 		{Name: "print-vs-login", NKDC: 1, Prelude: []string{"login", "tA"}, Threads: [][]string{{"print"}, {"login"}}},
 		{Name: "print-vs-destroy", NKDC: 1, Prelude: []string{"login", "tA"}, Threads: [][]string{{"print"}, {"destroy"}}},
 		{Name: "cached-ticket-vs-new-ticket", NKDC: 1, Prelude: []string{"login", "tA"}, Threads: [][]string{{"tA"}, {"tB"}}},
+		{Name: "two-requests-for-an-expired-renewable-ticket", NKDC: 1, Renew: true, Prelude: []string{"login", "tA", "advTimer", "advTicketEnd"}, Threads: [][]string{{"tA"}, {"tA"}}},
 		{Name: "getkdcs-2-kdcs", NKDC: 2, Threads: [][]string{{"getkdcs"}, {"getkdcs"}}},
 		{Name: "getkdcs-3-kdcs", NKDC: 3, Threads: [][]string{{"getkdcs"}, {"getkdcs"}}},
 		{Name: "getkdcs-vs-ticket-2-kdcs", NKDC: 2, Prelude: []string{"login"}, Threads: [][]string{{"getkdcs", "getkpasswd"}, {"tA"}}},
@@ -122,6 +123,17 @@ func (r *run) do(thread int, op string) {
 		var b bytes.Buffer
 		r.w.Client.Print(&b)
 		res.Count = b.Len()
+	case "advTicketEnd":
+		// just past the end of the earliest cached service ticket (still renewable)
+		var end time.Time
+		for _, e := range r.w.Client.VerifCache() {
+			if end.IsZero() || e.EndTime.Before(end) {
+				end = e.EndTime
+			}
+		}
+		if !end.IsZero() {
+			vclock.Set(end.Add(time.Second))
+		}
 	case "advTimer":
 		now := vclock.Now()
 		var best = now
